@@ -24,6 +24,7 @@ def gen_cases(rng, tier, ctx):
             cs.append({'line': gen.encode_line(d, wl, m, rng.chance(1, 2), False, None), 'cat': 'subset',
                        'cfg': dict(data=d, wl=wl, modes=m, macros=None, fnc1=False, eci=None)})
     cs += [c for c in gen.boundary_cases(rng, tier, per_cap=2) ]
+    cs += [c for c in gen.constant_cases(rng, tier) if c['cat'] != 'b256-length' or len(c['cfg']['data']) < 300]
     return cs
 
 
